@@ -216,7 +216,8 @@ def _token_atoms(ctx, b, gbb, H):
             why.append("the element is transformed by %s" % badc)
         else:
             lifted.append(a)
-    return set(("call", a) for a in lifted), tests, why
+    # (atoms true only if an element matched, atoms false only if an element matched, tests, reasons)
+    return set(("call", a) for a, pol in lifted if pol), set(("call", a) for a, pol in lifted if not pol), tests, why
 
 
 # ------------------------------------------------------------------------------------------------ R1
@@ -266,8 +267,8 @@ def r1_four_checks(ctx):
         test_ok, test_det, test_key = False, "", None
         if H in TOKENS:
             test_key = "%s:case-insensitive-token-test" % H
-            t_atoms, tests, why = _token_atoms(ctx, b, gbb, H)
-            lifted = sorted(t_atoms)
+            t_atoms, f_atoms, tests, why = _token_atoms(ctx, b, gbb, H)
+            lifted = sorted(t_atoms | f_atoms)
             test_ok = bool(lifted) and not why
             test_det = ("%d eq_ignore_ascii_case test(s) on elements of %s, literal(s) %s (want %r); %d usable as `some element matches`%s"
                         % (len(tests), H, sorted(set(str(t["lit"]) for t in tests)), TOKENS[H], len(lifted), ("; " + "; ".join(why)) if why else ""))
@@ -610,8 +611,8 @@ def x5_list_headers(ctx):
         if len(gets) != 1:
             continue
         if H in TOKENS:
-            ta, tests_h, _why = _token_atoms(ctx, b, gets[0][0], H)
-            atoms[H] = (ta, set())
+            ta, fa, tests_h, _why = _token_atoms(ctx, b, gets[0][0], H)
+            atoms[H] = (ta, fa)
             folds[H] = [g for t in tests_h for g in t.get("folds", [])]
         elif H == "SEC_WEBSOCKET_VERSION":
             vt = [x for x in _version_tests(b, gets[0][0]) if x[2] == ["13"]]
@@ -639,9 +640,10 @@ def x5_list_headers(ctx):
             if H2 not in TOKENS:
                 forced.update({a: True for a in ta})
                 forced.update({a: False for a in fa})
-        groups = {H2: atoms[H2][0] for H2 in TOKENS if H2 in atoms}
+        groups = {H2: atoms[H2][0] | atoms[H2][1] for H2 in TOKENS if H2 in atoms}
+        matched = {a: False for H2 in TOKENS if H2 in atoms for a in atoms[H2][1]}
         mine = groups.get(H, set())
-        hit, every = blocks_after_success(b, groups, H, forced, avoid_edges=avoid) if mine and all(groups.values()) and len(groups) == len(TOKENS) and site is not None else (None, None)
+        hit, every = blocks_after_success(b, groups, H, forced, avoid_edges=avoid, matched=matched) if mine and all(groups.values()) and len(groups) == len(TOKENS) and site is not None else (None, None)
         lost_exits = sorted(bb for bb in err_exits if hit is not None and bb in hit)
         # a fold over the field lines keeps a match: entered with a true accumulator its closure returns true
         forgetful = [g for g in folds.get(H, []) if not returns_true_given(g, 2)]
